@@ -32,7 +32,7 @@ from fractions import Fraction
 
 from bounded import _eqpool as P
 
-N_CASES = {"quick": 120, "thorough": 4000}
+N_CASES = {"quick": 160, "thorough": 4000}
 FORMS = ("Lin", "Log", "Square", "LinRel", "LinTanh")
 FLOAT_FORMS = ("LinRel", "LinTanh")
 ZERO_SYM = 1e-25
@@ -176,9 +176,11 @@ def eval_config(case, cfg, eqsys_cache=None):
     cache = eqsys_cache if eqsys_cache is not None else {}
 
     def residuals(conc, init, consts):
-        ck = tuple(consts)
+        # constants passed as parameters must override those stored in the EqSystem: store decoys there
+        stored = [k * (i + 2) for i, k in enumerate(consts)] if cfg["new_eq_params"] else list(consts)
+        ck = tuple(stored)
         if ck not in cache:      # the system only depends on the constants (species order is fixed per case)
-            cache[ck] = P.build_eqsys(names, rx, [_R(k) for k in consts])
+            cache[ck] = P.build_eqsys(names, rx, [_R(k) for k in stored])
         es = cache[ck]
         ns = _numsys_class(form)(es, backend=sp, rref_equil=cfg["rref_equil"], rref_preserv=cfg["rref_preserv"],
                                  new_eq_params=cfg["new_eq_params"])
@@ -257,8 +259,8 @@ def eval_quotients(case):
         ok = list(ck) == list(keys) and len(t1) == len(keys) == len(t0)
         if ok:
             for k, a, b, m, row in zip(keys, t1, t0, mine, B):
-                sc = float(sum(abs(bb) * x for bb, x in zip(row, c)))
-                if abs(float(a) - float(m)) > 1e-12 * sc or abs(float(b) - float(m)) > 1e-12 * sc:
+                sc = float(sum(abs(bb) * (x + x0) for bb, x, x0 in zip(row, c, c0)))
+                if abs(float(a) - float(m)) > 1e-11 * sc or abs(float(b) - float(m)) > 1e-11 * sc:
                     ok = False
         out.append(("composition_conservation", ok, "keys %s totals(c) %s totals(c0) %s expected keys %s totals %s" %
                     (list(ck), list(map(float, t1)), list(map(float, t0)), keys, [float(m) for m in mine])))
@@ -269,7 +271,8 @@ def eval_quotients(case):
         ck, t1, t0 = es.composition_conservation(np.array([float(x) for x in conc]), np.array([float(x) for x in c0]))
         d = max(abs(float(a) - float(b)) for a, b in zip(t1, t0))
         exp = max(abs(float(m1 - m0)) for m1, m0 in zip(P.totals(B, conc), P.totals(B, c0)))
-        out.append(("composition_conservation_perturbed", abs(d - exp) <= 1e-9 * exp + 1e-13,
+        sc = max(float(sum(abs(bb) * (x + x0) for bb, x, x0 in zip(row, conc, c0))) for row in B)
+        out.append(("composition_conservation_perturbed", abs(d - exp) <= 1e-9 * exp + 1e-11 * sc,
                     "max |B c' - B c0| = %.6e expected %.6e" % (d, exp)))
     except Exception as e:
         out.append(("quotients", False, "raised %s: %s" % (type(e).__name__, str(e)[:300])))
@@ -380,7 +383,7 @@ def run(tier, seed):
         "name": "quotients_conservation",
         "rule": gen_rule + "; EqSystem.equilibrium_quotients(c) == K exactly on Fractions, to 1e-9 relative on 1-D and 2-D "
                 "float arrays (rows c0 and c); composition_conservation(c, c0) returns the sorted composition keys and twice "
-                "the same totals (1e-12 relative to sum|B_kj| c_j), and the exact defect for a state with one concentration scaled",
+                "the same totals (1e-11 relative to sum|B_kj| (c_j + c0_j)), and the exact defect for a state with one concentration scaled",
         "bound": "%d systems, 4 checks each" % len(cases),
         "evaluations": n_quot,
         "distinct": len({_case_key(c) for c in cases}) * 4,
